@@ -39,7 +39,12 @@ def _col(text_lines, lineno, boff):
 
 def _own(node):
     """ast nodes in node's own scope (nested scopes yielded, not entered; their decorators/defaults are)"""
-    st = list(ast.iter_child_nodes(node))
+    if isinstance(node, (ast.FunctionDef, ast.AsyncFunctionDef, ast.ClassDef)):
+        st = list(node.body)        # decorators, defaults, annotations and bases belong to the enclosing scope
+    elif isinstance(node, ast.Lambda):
+        st = [node.body]
+    else:
+        st = list(ast.iter_child_nodes(node))
     while st:
         x = st.pop()
         yield x
